@@ -417,6 +417,13 @@ def _fork_map(worker: Callable[[Any], Stats], args: List[Any]) -> List[Stats]:
     return results  # type: ignore
 
 
+class _StopShrink(BaseException):
+    """Raised inside a property once shrinking has used its wall-clock budget; the best failing case so far is kept."""
+
+
+SHRINK_BUDGET = {"quick": int(os.environ.get("VERIF_SHRINK_S", "45")), "thorough": int(os.environ.get("VERIF_SHRINK_S", "240"))}
+
+
 def _run_hypothesis(strategy_fn, prop, n_cases, sd, classify, h: Harness, shrink: bool) -> Stats:
     import hypothesis
     from hypothesis import HealthCheck, Phase, given, settings
@@ -432,6 +439,8 @@ def _run_hypothesis(strategy_fn, prop, n_cases, sd, classify, h: Harness, shrink
     @given(strategy)
     def t(case):
         arm_watchdog()
+        if best and time.time() - best[0] > SHRINK_BUDGET.get(h.tier, 45):
+            raise _StopShrink()
         try:
             prop(case, st)
         except Violation as v:
@@ -444,11 +453,21 @@ def _run_hypothesis(strategy_fn, prop, n_cases, sd, classify, h: Harness, shrink
             st.frozen = True
             if v.case is None:
                 v.case = case
+            if not best:
+                best.append(time.time())
+                best.append(v)
+            elif len(jdump(v.case)) <= len(jdump(best[1].case)):
+                best[1] = v
             raise
 
+    best: list = []
     try:
         t()
     except Violation as v:
+        st.violations.append({"msg": v.msg, "case": v.case, "sig": v.sig})
+    except _StopShrink:
+        v = best[1]
+        st.extra["shrink_budget_hit"] += 1
         st.violations.append({"msg": v.msg, "case": v.case, "sig": v.sig})
     except hypothesis.errors.Flaky as e:  # the oracle or the code is non-deterministic: report, do not judge
         raise Inconclusive("flaky: %r" % (e,))
